@@ -81,6 +81,14 @@ def work(chunk_id, payload):
             r = c = 2
         F = int(rng.choice([1, 1, 2]))
         sc = calgen.Scenario(ctype, r, c, F, rng)
+        # one-way family: multi-port standards whose zero pattern is not
+        # reciprocal (isolator-like three-ports).  Such a standard makes some
+        # cells the library counts as equations trivially 0 = 0, so "fewer
+        # equations than unknowns" is not well defined for these pools: only
+        # the determined side of the property is judged there.
+        oneway = r == c == 3 and rng.random() < 0.5
+        if oneway:
+            sc.pre_sparse = int(rng.integers(1, 3))
         sc.sufficient_recipe(extras=int(rng.integers(0, 3)))
         sc.choose_entries()
         if not sc.well_determined(1e4)[0]:
@@ -124,6 +132,7 @@ def work(chunk_id, payload):
                 break
         cid = "p%d_%d" % (chunk_id, k)
         cases.append((cid, s.text()))
+        sc.oneway = oneway
         meta[cid] = (sc, steps)
     wd = os.path.join(workroot, "w%d" % chunk_id)
     results = R.run_cases(binary, cases, wd, timeout=1800, watchdog=60)
@@ -154,8 +163,11 @@ def work(chunk_id, payload):
                 break
             part["distinct"].add((sc.ctype, sc.r, sc.c, sc.form, st["cls"],
                                   st["n"], min(st["failed_before"], 3)))
-            bump("solve_calls:" + st["cls"])
-            if st["cls"] == "U":
+            bump("solve_calls:" + st["cls"] + (":one-way" if sc.oneway
+                                               else ""))
+            if st["cls"] == "U" and sc.oneway:
+                pass
+            elif st["cls"] == "U":
                 cbs = [c_ for c_ in es.get("cb", []) if c_[0] != "WARNING"]
                 if es["ret"] != -1 or es.get("errno") != "EDOM":
                     det = [[(a["equations"], a["unknowns"], a["nullity"])
@@ -230,7 +242,10 @@ def main():
              "(1x1..3x3, 1x2, 2x1) x m/ab; standards added in a random order "
              "with vnacal_new_solve after each addition; every prefix "
              "classified U/D/G by the independent identifiability test; "
-             "D prefixes also apply a random DUT; distinct = distinct (type, "
+             "D prefixes also apply a random DUT; half of the 3x3 pools "
+             "contain one or two three-port standards with a non-reciprocal "
+             "zero pattern (only the determined side is judged there); "
+             "distinct = distinct (type, "
              "rows, cols, form, class, prefix length, failed attempts before) "
              "tuples",
         min_events=10,
